@@ -4,6 +4,7 @@ import (
 	"bytes"
 	"encoding/json"
 	"fmt"
+	"os"
 	"reflect"
 	"sort"
 	"strings"
@@ -448,7 +449,12 @@ func hexAll(bs [][]byte) []string {
 // TestC09Race: concurrent Size/Marshal/MarshalTo on a message nobody mutates (fresh cache at start,
 // so first-use initialisation races are exercised).  Meant to run in a -race binary.
 func TestC09Race(t *testing.T) {
-	rec := ev.New("C09", "concurrent clause: N in {2,8,32} goroutines released together call Size / Marshal / MarshalTo / csproto.Marshal on ONE unmutated message whose size cache is empty at the start (1 in 3: a message-typed map value is a nil pointer); every output must equal the bytes of a fresh copy; the binary is built with -race")
+	if v := os.Getenv(envC09Child); v != "" {
+		loadCorpus()
+		c09ColdChild(t, v)
+		return
+	}
+	rec := ev.New("C09", "concurrent clause: N in {2,8,32} goroutines released together call Size / Marshal / MarshalTo / csproto.Marshal on ONE unmutated message whose size cache is empty at the start (1 in 3: a message-typed map value is a nil pointer); every output must equal the bytes of a fresh copy; the binary is built with -race; cold-start rounds: 6 (thorough 60) fresh processes in which, for a third of the types that have extensions or message-typed children, the FIRST Size / Marshal / MarshalTo / csproto.Marshal calls of the process are made by 6 goroutines on 3 messages at once (nothing sized, classified or cached before), outputs compared with a fresh copy afterwards")
 	defer rec.Write()
 	useRecorder(rec)
 	defer func() { t.Log(rec.Summary()) }()
@@ -502,6 +508,7 @@ func TestC09Race(t *testing.T) {
 		rec.Check(rt, "racecase", c, f)
 	})
 	rec.JournalClear()
+	c09ColdRounds(t, rec)
 }
 
 func raceRound(c *GCase, n, iters int) *ev.Failure {
